@@ -41,6 +41,16 @@ def gen_data(rng, method, n=None, m=None, extra=None, declared=None, positive=Fa
     known = []
     for i in range(n + extra):
         known.append({'id': ALT[i], 'criteria': {CRIT[j]: PU * rng.choice(vals) for j in range(m)}})
+    if rng.random() < 0.12:     # a criterion on which all known alternatives agree (degenerate observed range)
+        j = rng.randrange(m)
+        v = PU * rng.choice(vals)
+        for a in known:
+            a['criteria'][CRIT[j]] = v
+        crits[j].pop('valuesRange', None)
+    if method != 'choquetIntegral':     # a criterion without `type` is a gain criterion
+        for c in crits:
+            if c['type'] == 'gain' and rng.random() < 0.15:
+                c['_untyped'] = True
     if lo < 0 and rng.random() < 0.3:     # a criterion whose values (and range) are negative throughout
         j = rng.randrange(m)
         for a in known:
@@ -55,6 +65,9 @@ def gen_data(rng, method, n=None, m=None, extra=None, declared=None, positive=Fa
         crits = [crits[j] for j in order]
         types = [types[j] for j in order]
     cs = [c['id'] for c in crits]
+    for c in crits:
+        if c.pop('_untyped', False):
+            del c['type']
     if method in ('weightedSum', 'owa'):
         mp = {'weights': {c: PU * rng.choice([0, 1, 2, 3, 5]) // rng.choice([1, 2]) for c in cs}}
     elif method == 'choquetIntegral':
